@@ -1,13 +1,13 @@
 //@ assume: siphash_block is an uninterpreted function of (keys, nonce) -- SipHash-2-4 itself is outside; CuckooParams keeps its real fields; Proof is reduced to its nonce vector; global::proofsize() is an uninterpreted constant in 1..=2^20
-//@ assume: T6 rewrites: `vec![x; n]` => helper vec_filled (n copies of x); every `Err(Error::Verification("<message>".to_owned()))` => `Err(Error::Verification)`; integer literal types made explicit
+//@ assume: T6 rewrites: `vec![x; n]` => helper vec_filled (n copies of x); every `Err(Error::Verification("<message>".to_owned()))` => `Err(Error::<Kind>)`, one abstract kind per message; integer literal types made explicit
 //@ assume: 64-bit target
 //@ assume: assumed: u64::leading_zeros(x) >= 1 for x < 2^63 (std intrinsic; only used to show `1 + mask` cannot overflow)
-//@ assume: decided here, for ANY proof and any siphash outputs: CuckaroodContext::verify (Cuckarood, the proof of work of header version 2) never indexes out of range, never overflows and ALWAYS TERMINATES -- both direction counters stay within size/2 so every slot index 4*ndir+2*dir(+1) is below 2*size; the two bucket lists only ever link a slot to an EARLIER slot of the same side and direction (so the inner `while` strictly descends), and the outer cycle walk takes at most `size` steps. The last point did NOT hold on the pinned tree (finding F11: a rho-shaped edge set makes the walk run forever; the obligations that failed were the overflow check on `n += 1` and the outer loop's `decreases`) and holds after the repair. Also decided: verify returns Ok ONLY IF the nonces are strictly ascending, within the edge mask, 21/21 balanced between the two directions, and -- with the endpoints laid out in slots by direction rank as the code does -- the walk from slot 0 that repeatedly moves to THE unique endpoint on the same side with the wanted direction (1 from a U endpoint, 0 from a V endpoint) and the same node value, then to the other end of that edge, returns to slot 0 for the first time after exactly `size` steps, visiting `size` distinct endpoints (hence, by the alternation of directions, every edge exactly once): one simple alternating cycle through all edges.
+//@ assume: decided here, for ANY proof and any siphash outputs: CuckaroodContext::verify (Cuckarood, the proof of work of header version 2) never indexes out of range, never overflows and ALWAYS TERMINATES -- both direction counters stay within size/2 so every slot index 4*ndir+2*dir(+1) is below 2*size; the two bucket lists only ever link a slot to an EARLIER slot of the same side and direction (so the inner `while` strictly descends), and the outer cycle walk takes at most `size` steps. The last point did NOT hold on the pinned tree (finding F11: a rho-shaped edge set makes the walk run forever; the obligations that failed were the overflow check on `n += 1` and the outer loop's `decreases`) and holds after the repair. Also decided: verify returns Ok ONLY IF the nonces are strictly ascending, within the edge mask, 21/21 balanced between the two directions, and -- with the endpoints laid out in slots by direction rank as the code does -- the walk from slot 0 that repeatedly moves to THE unique endpoint on the same side with the wanted direction (1 from a U endpoint, 0 from a V endpoint) and the same node value, then to the other end of that edge, returns to slot 0 for the first time after exactly `size` steps, visiting `size` distinct endpoints (hence, by the alternation of directions, every edge exactly once): one simple alternating cycle through all edges. Rejections carry their reason too: wrong-length / too-big / not-ascending / not-balanced only for that reason, 'branch' only if an endpoint the walk stands on has two partners, 'dead end' only if it has none.
 //@ assumed_items: 5
 //@ fns: CuckaroodContext::verify
 use vstd::std_specs::bits::*;
 global size_of usize == 8;
-pub enum Error { Verification }
+pub enum Error { WrongLen, NotBalanced, TooBig, NotAscending, Endpoints, Branch, DeadEnd, TooLong, TooShort }
 #[verifier::external_body]
 proof fn axiom_lz_pos(x: u64) requires x < 0x8000_0000_0000_0000u64 ensures u64_leading_zeros(x) >= 1 { }
 pub struct Proof { pub nonces: Vec<u64> }
@@ -182,6 +182,10 @@ pub open spec fn simple_dcycle(uvs: Seq<u64>, size: int) -> bool {
     exists|path: Seq<int>, js: Seq<int>| #[trigger] dwalk(uvs, path, js.drop_last()) && path.len() == size && js.len() == size
         && uniq_d(uvs, path.last(), js.last()) && js.last() != path.last() && flip1(js.last()) == 0 && path.no_duplicates()
 }
+/// two different partners of one endpoint: a branch
+pub open spec fn two_partners(uvs: Seq<u64>, i: int, a: int, b: int) -> bool { 0 <= i < uvs.len() && standing(i) && a != b && partner(uvs, i, a) && partner(uvs, i, b) }
+/// an endpoint the walk can stand on that has no partner
+pub open spec fn no_partner(uvs: Seq<u64>, i: int) -> bool { 0 <= i < uvs.len() && standing(i) && uniq_d(uvs, i, i) }
 /// the walk is deterministic: equal endpoints have equal futures
 proof fn lemma_future(uvs: Seq<u64>, path: Seq<int>, js: Seq<int>, jlast: int, a: int, b: int, d: int)
     requires dwalk(uvs, path, js), uniq_d(uvs, path.last(), jlast), jlast != path.last(), flip1(jlast) == 0,
@@ -277,6 +281,17 @@ proof fn lemma_scan_step(uvs: Seq<u64>, hu: Seq<usize>, hv: Seq<usize>, pv: Seq<
         assert forall|e: int| #[trigger] scanned(uvs, mask, i, k2, nn, h, e) implies uvs[e] != uvs[i] by { if e != k { assert(scanned(uvs, mask, i, k, nn, h, e)); } }
     }
 }
+proof fn lemma_branch(uvs: Seq<u64>, mask: u64, nn: int, h: int, i: int, k: int, j: int)
+    requires mask & 1 == 1, uvs.len() == nn, 0 <= i < nn, 0 <= k < nn, standing(i), sinv(uvs, mask, i, k, j, nn, h), j != i, uvs[k] == uvs[i],
+    ensures two_partners(uvs, i, j, k)
+{
+    let tb = tbucket(uvs, mask, i);
+    lemma_bits(uvs[i], want(i) as u64, mask);
+    assert(mem(uvs, mask, i % 2, tb, k, h, h));
+    assert(scanned(uvs, mask, i, k, nn, h, j));
+    lemma_xb(uvs, mask, k); lemma_xb(uvs, mask, j);
+    assert(partner(uvs, i, k) && partner(uvs, i, j) && j > k);
+}
 proof fn lemma_scan_done(uvs: Seq<u64>, mask: u64, nn: int, h: int, i: int, j: int)
     requires mask & 1 == 1, uvs.len() == nn, nn % 2 == 0, 0 <= i < nn, standing(i), sinv(uvs, mask, i, nn, j, nn, h), forall|e: int| 0 <= e < nn ==> #[trigger] filled(e, h, h),
     ensures uniq_d(uvs, i, j), j != i ==> standing(flip1(j)) && 0 <= flip1(j) < nn,
@@ -310,15 +325,15 @@ pub struct CuckaroodContext { pub params: CuckooParams }
 impl CuckaroodContext {
 //@ extract core/src/pow/cuckarood.rs :: impl PoWContext for CuckaroodContext::verify
 //@   sigrewrite `fn verify(&self, proof: &Proof)` => `pub fn verify(&self, proof: &Proof)`
-//@   rewrite `return Err(Error::Verification("wrong cycle length".to_owned()));` => `return Err(Error::Verification);`
-//@   rewrite `return Err(Error::Verification("edges not balanced".to_owned()));` => `return Err(Error::Verification);`
-//@   rewrite `return Err(Error::Verification("edge too big".to_owned()));` => `return Err(Error::Verification);`
-//@   rewrite `return Err(Error::Verification("edges not ascending".to_owned()));` => `return Err(Error::Verification);`
-//@   rewrite `return Err(Error::Verification("endpoints don't match up".to_owned()));` => `return Err(Error::Verification);`
-//@   rewrite `return Err(Error::Verification("branch in cycle".to_owned()));` => `return Err(Error::Verification);`
-//@   rewrite `return Err(Error::Verification("cycle dead ends".to_owned()));` => `return Err(Error::Verification);`
-//@   rewrite `return Err(Error::Verification("cycle too long".to_owned()));` => `return Err(Error::Verification);` x?
-//@   rewrite `Err(Error::Verification("cycle too short".to_owned()))` => `Err(Error::Verification)`
+//@   rewrite `return Err(Error::Verification("wrong cycle length".to_owned()));` => `return Err(Error::WrongLen);`
+//@   rewrite `return Err(Error::Verification("edges not balanced".to_owned()));` => `return Err(Error::NotBalanced);`
+//@   rewrite `return Err(Error::Verification("edge too big".to_owned()));` => `return Err(Error::TooBig);`
+//@   rewrite `return Err(Error::Verification("edges not ascending".to_owned()));` => `return Err(Error::NotAscending);`
+//@   rewrite `return Err(Error::Verification("endpoints don't match up".to_owned()));` => `return Err(Error::Endpoints);`
+//@   rewrite `return Err(Error::Verification("branch in cycle".to_owned()));` => `return Err(Error::Branch);`
+//@   rewrite `return Err(Error::Verification("cycle dead ends".to_owned()));` => `return Err(Error::DeadEnd);`
+//@   rewrite `return Err(Error::Verification("cycle too long".to_owned()));` => `return Err(Error::TooLong);` x?
+//@   rewrite `Err(Error::Verification("cycle too short".to_owned()))` => `Err(Error::TooShort)`
 //@   rewrite `let mut uvs = vec![0u64; 2 * size];` => `let mut uvs = vec_filled_u64(0u64, 2 * size);`
 //@   rewrite `let mut ndir = vec![0usize; 2];` => `let mut ndir = vec_filled_usize(0usize, 2);`
 //@   rewrite `let mut headu = vec![2 * size; 1 + mask as usize];` => `let mut headu = vec_filled_usize(2 * size, 1 + mask as usize);`
@@ -401,9 +416,14 @@ impl CuckaroodContext {
 //@+        forall|e: int| 0 <= e < nn ==> prev_ok(#[trigger] prev@[e] as int, e, nn),
 //@+        lists(headu@, headv@, prev@, mask, nn, h, h), sem(uvs@, headu@, headv@, prev@, mask, nn, h, h), forall|e: int| 0 <= e < nn ==> #[trigger] filled(e, h, h),
 //@+        sinv(uvs@, mask, i as int, k as int, j as int, nn, h), standing(i as int),
+//@+        uvs@ == slots(self.params, proof.nonces@, size as int), size == proof.nonces@.len(),
 //@+    decreases (if k == nn { 0int } else { k + 1 }),
+//@   before `return Err(Error::Branch);`:
+//@+    proof { lemma_branch(uvs@, mask, nn, h, i as int, k as int, j as int); }
+//@   before `return Err(Error::NotBalanced);`:
+//@+    proof { assert(cnt_dir(nonces@, n + 1, dir as int) == cnt_dir(nonces@, n as int, dir as int) + 1); assert(cnt_dir(nonces@, n + 1, dir as int) > size / 2); }
 //@   before `if j == i {`:
-//@+    proof { lemma_scan_done(uvs@, mask, nn, h, i as int, j as int); }
+//@+    proof { lemma_scan_done(uvs@, mask, nn, h, i as int, j as int); if j == i { assert(no_partner(uvs@, i as int)); } }
 //@   before `i = j ^ 1;`:
 //@+    proof { lemma_xor1(j); jlast = j as int;
 //@+            if flip1(j as int) != 0 { let p2 = path.push(flip1(j as int)); let j2 = js.push(j as int);
@@ -413,6 +433,12 @@ impl CuckaroodContext {
 //@+    proof { if n == size { lemma_distinct(uvs@, path, js, jlast); let jsf = js.push(jlast); assert(jsf.drop_last() =~= js);
 //@+                assert(dwalk(uvs@, path, jsf.drop_last()) && path.len() == size && jsf.len() == size && uniq_d(uvs@, path.last(), jsf.last()) && jsf.last() != path.last() && flip1(jsf.last()) == 0 && path.no_duplicates()); } }
 //@   ensures:
+//@+    r matches Err(Error::WrongLen) ==> proof.nonces@.len() != sp_proofsize(),
+//@+    r matches Err(Error::TooBig) ==> exists|a: int| 0 <= a < proof.nonces@.len() && #[trigger] proof.nonces@[a] > self.params.edge_mask,
+//@+    r matches Err(Error::NotAscending) ==> exists|a: int| 1 <= a < proof.nonces@.len() && proof.nonces@[a - 1] >= #[trigger] proof.nonces@[a],
+//@+    r matches Err(Error::NotBalanced) ==> exists|m: int, d: int| 0 <= m <= proof.nonces@.len() && 0 <= d <= 1 && #[trigger] cnt_dir(proof.nonces@, m, d) > proof.nonces@.len() / 2,
+//@+    r matches Err(Error::Branch) ==> exists|i: int, a: int, b: int| #[trigger] two_partners(slots(self.params, proof.nonces@, proof.nonces@.len() as int), i, a, b),
+//@+    r matches Err(Error::DeadEnd) ==> exists|i: int| #[trigger] no_partner(slots(self.params, proof.nonces@, proof.nonces@.len() as int), i),
 //@+    r.is_ok() ==> proof.nonces@.len() == sp_proofsize()
 //@+        && (forall|a: int| 0 <= a < proof.nonces@.len() ==> #[trigger] proof.nonces@[a] <= self.params.edge_mask)
 //@+        && (forall|a: int| 1 <= a < proof.nonces@.len() ==> proof.nonces@[a - 1] < #[trigger] proof.nonces@[a])
